@@ -143,9 +143,7 @@ def judge(case: dict, ev: T.Optional[Evidence] = None, strict_known: bool = Fals
         if ev is not None:
             ev.case(case, cls=cls + ':excluded')
             ev.exclude(R.grey[0])
-        if K_NONAME in R.known:
-            return None
-        st, val = I.conf_str(tpl, data, fmt)
+        st, val = I.conf_str(tpl, data, fmt)    # (K_NONAME, '#cmakedefine' without a name, is fixed in /repo: must be a clean rejection)
         if st == 'crash':
             return Failure(f'{fmt}/crash:{val.split(":")[0]}', case,
                            f'format {fmt}: template {short(tpl)} with {data!r} raised {val} (outside the documented region, '
@@ -192,13 +190,10 @@ def judge(case: dict, ev: T.Optional[Evidence] = None, strict_known: bool = Fals
         return Failure(sig, case,
                        f'format {fmt}, data {data!r}\n template {short(tpl)}\n expected {short(R.text())}\n got      {short(got)}\n'
                        f' first disagreement at output offset {m.where} in a {m.kind!r} segment of the reference')
-    if 'eol' in m.deviations:
-        if strict_known:
-            return Failure(K_EOL, case,
-                           f'format {fmt}: template {short(tpl)} -> {short(got)}: the terminator of the directive line was replaced by LF '
-                           f'(expected {short(R.text())}; property: "copies every other byte (including line endings) unchanged")')
-        if ev is not None:
-            ev.exclude('known finding %s: terminator of directive lines compared modulo LF' % K_EOL)
+    if 'eol' in m.deviations:     # (was a known finding, fixed in /repo: enforced everywhere)
+        return Failure(K_EOL, case,
+                       f'format {fmt}: template {short(tpl)} -> {short(got)}: the terminator of the directive line was replaced by LF '
+                       f'(expected {short(R.text())}; property: "copies every other byte (including line endings) unchanged")')
     required = set(R_used.missing)
     allowed = required | R_used.missing_def | R_used.missing_opt
     if strict_known:
